@@ -62,15 +62,16 @@ Definition Agreed (aok : meth -> bool) (C S : policy) (r : hok) : Prop :=
    - Integrity is not REQUIRED (the property's matrix is authentication x
      encryption; REQUIRED integrity is enforced only at the end of the handshake,
      see notes/C10.md);
-   - the server does not list IDTOKENS (it shares its bitmask bit with SCITOKENS,
-     so the bitmask exchange cannot name it);
+   - the server does not list BOTH names of the token method, TOKEN and IDTOKENS
+     (they share the bit CAUTH_TOKEN; with both listed the two ends may report the
+     two different names of the one method that ran: C10_alias_names_witness below);
    - between these two peers, a method both list works iff this build implements
      it (honest, correctly credentialed endpoints; PASSWORD is a stub). *)
 Theorem C10_table : forall (aok : meth -> bool) (C S : policy) (sid : N),
   In (p_auth C) four_levels -> In (p_auth S) four_levels ->
   In (p_enc C) four_levels -> In (p_enc S) four_levels ->
   p_integ C <> Rq -> p_integ S <> Rq ->
-  ~ In mIDT (p_meths S) ->
+  ~ (In mTOK (p_meths S) /\ In mIDT (p_meths S)) ->
   (forall m, In m (p_meths C) -> In m (p_meths S) -> m <> mNONE -> aok m = implemented m) ->
   (MustFail aok C S -> honest aok C S sid = HDenied) /\
   (~ MustFail aok C S -> exists r, honest aok C S sid = HOk r /\ Agreed aok C S r).
@@ -92,11 +93,11 @@ Print Assumptions C10_required_protection.
 (* the retry loop of the bitmask exchange never needs more rounds than the
    client has methods, and ends with a method both sides list *)
 Theorem C10_retry_loop : forall aok (sm cms : list meth) (g : meth),
-  ~ In mIDT sm -> (forall m, In m cms -> In m sm) ->
+  ~ (In mTOK sm /\ In mIDT sm) -> (forall m, In m cms -> In m sm) ->
   (forall m, In m cms -> m <> mNONE -> aok m = implemented m) ->
   In g cms -> implemented g = true -> g <> mNONE ->
   exists rounds ms, auth_loop (S (length cms)) aok sm cms (mask cms) = (rounds, LOk ms)
-                    /\ In ms cms /\ aok ms = true.
+                    /\ In ms cms /\ aok ms = true /\ offered_under cms (bit ms) = Some ms.
 Proof.
   intros aok sm cms g H1 H2 H3 H4 H5 H6.
   destruct cms as [|c0 r0]; [contradiction|].
@@ -132,4 +133,20 @@ Proof. vm_compute. reflexivity. Qed.
 Example C10_ex_fallback :
   exists r, honest ex_aok (mkP Pf Nv Op [mPW] [] 11) (mkP Pf Op Op [mPW] [cAES] 22) 5 = HOk r
             /\ k_cauth r = false /\ k_sauth r = false /\ k_creal r = false.
+Proof. eexists. vm_compute. repeat split. Qed.
+
+(* why the alias hypothesis is there: a server listing both names of the token
+   method against a client listing IDTOKENS authenticates (the one token exchange
+   runs), but the server reports TOKEN and the client IDTOKENS.  The same run on
+   the real code is part of every check (shape "token-alias-names"). *)
+Example C10_alias_names_witness :
+  exists r, honest ex_aok (mkP Rq Op Op [mIDT] [cAES] 11) (mkP Op Op Op [mTOK; mIDT] [cAES] 22) 5 = HOk r
+            /\ k_cauth r = true /\ k_sauth r = true /\ k_ran r = Some mTOK
+            /\ k_smeth r = mTOK /\ k_cmeth r = mIDT.
+Proof. eexists. vm_compute. repeat split. Qed.
+(* IDTOKENS alone on both sides (the shape that could never succeed before the
+   bit was corrected): one round, bit 2048 *)
+Example C10_ex_idtokens :
+  exists r, honest ex_aok (mkP Rq Op Op [mIDT] [cAES] 11) (mkP Rq Op Op [mIDT] [cAES] 22) 5 = HOk r
+            /\ k_rounds r = [(2048, 2048)]%Z /\ k_cmeth r = mIDT /\ k_smeth r = mIDT.
 Proof. eexists. vm_compute. repeat split. Qed.
